@@ -224,7 +224,7 @@ def sub_mutations(ctx):
         for flag in FLAGS:
             run_column(ctx, strings, flag, "csv")
 
-    ctx.hyp(strat, body, ctx.n(30, 1200))
+    ctx.hyp(strat, body, ctx.n(100, 1200))
 
 
 def sub_sort_agreement(ctx):
@@ -258,7 +258,7 @@ def sub_sort_agreement(ctx):
             else:
                 seen_non = True
 
-    ctx.hyp(strat, body, ctx.n(150, 4000))
+    ctx.hyp(strat, body, ctx.n(500, 4000))
 
 
 def literal_ok(s):
